@@ -46,6 +46,10 @@ pub struct SockState {
     overflow: bool,
     updates: u32,
     eof_reads: u32,
+    /// Buffering mode: written bytes sit here until the server flushes.
+    buffered: bool,
+    pending: Vec<u8>,
+    flushes: u32,
 }
 
 #[derive(Clone)]
@@ -66,6 +70,21 @@ pub struct Snapshot {
 impl ScriptedSocket {
     pub fn new(credit: Option<usize>) -> Self {
         ScriptedSocket(Arc::new(Mutex::new(SockState { credit, ..Default::default() })))
+    }
+
+    /// A socket that, like a `BufWriter` or a TLS stream, hands written bytes
+    /// to the peer only when it is flushed.
+    pub fn new_buffering(credit: Option<usize>) -> Self {
+        ScriptedSocket(Arc::new(Mutex::new(SockState { credit, buffered: true, ..Default::default() })))
+    }
+
+    /// Bytes the server has written but not flushed.
+    pub fn unflushed(&self) -> Vec<u8> {
+        self.with(|s| s.pending.clone())
+    }
+
+    pub fn flushes(&self) -> u32 {
+        self.with(|s| s.flushes)
     }
 
     fn with<T>(&self, f: impl FnOnce(&mut SockState) -> T) -> T {
@@ -203,7 +222,7 @@ impl AsyncWrite for ServerEnd {
             if data.is_empty() {
                 return Poll::Ready(Ok(0));
             }
-            if s.out.len() + data.len() > OUTPUT_HARD_LIMIT {
+            if s.out.len() + s.pending.len() + data.len() > OUTPUT_HARD_LIMIT {
                 s.overflow = true;
                 return Poll::Ready(Err(io::Error::new(io::ErrorKind::BrokenPipe, "output limit of the scripted socket")));
             }
@@ -219,14 +238,23 @@ impl AsyncWrite for ServerEnd {
             if let Some(c) = s.credit.as_mut() {
                 *c -= n;
             }
-            s.out.extend_from_slice(&data[..n]);
+            if s.buffered {
+                s.pending.extend_from_slice(&data[..n]);
+            } else {
+                s.out.extend_from_slice(&data[..n]);
+            }
             s.parked_write = false;
             Poll::Ready(Ok(n))
         })
     }
 
     fn poll_flush(self: Pin<&mut Self>, _cx: &mut Context<'_>) -> Poll<io::Result<()>> {
-        self.0.with(|s| s.activity += 1);
+        self.0.with(|s| {
+            s.activity += 1;
+            s.flushes += 1;
+            let p = std::mem::take(&mut s.pending);
+            s.out.extend_from_slice(&p);
+        });
         Poll::Ready(Ok(()))
     }
 
@@ -341,6 +369,9 @@ pub enum Step {
     /// then (one connection only), so no sender is left: the connection must
     /// keep serving queries, there is just nothing to be notified of any more.
     DropSender,
+    /// Only as the first step: the connection gets the buffering socket
+    /// (bytes reach the client when the server flushes, not when it writes).
+    Buffering,
 }
 
 #[derive(Clone, Debug)]
@@ -356,6 +387,10 @@ impl Schedule {
     /// The trivial schedule: everything in one piece, no notification.
     pub fn reference() -> Self {
         Schedule { credit: None, settle_first: true, steps: vec![] }
+    }
+
+    pub fn buffering(&self) -> bool {
+        self.steps.first() == Some(&Step::Buffering)
     }
 
     pub fn notifies(&self) -> usize {
@@ -410,6 +445,7 @@ impl Schedule {
                 Step::Grant(n) => s.push_str(&format!("G{}", n)),
                 Step::Unlimit => s.push('U'),
                 Step::DropSender => s.push('X'),
+                Step::Buffering => s.push_str("buffering-socket"),
             }
         }
         s.push_str(" [rest S U S close S]");
@@ -481,6 +517,16 @@ pub struct RunOutcome {
     pub updates: u32,
     pub eof_reads: u32,
     pub panic: Option<String>,
+    /// Notifications fired right after a quiescent point while the connection
+    /// was parked on the read side between queries or inside a header, with
+    /// the sender and the connection alive: each of them must show up as a
+    /// Serial Notify of its own.
+    pub notifies_owed: usize,
+    /// Buffering socket only: the first time the server was found parked on
+    /// its read side with written-but-unflushed bytes: (bytes already
+    /// delivered, the unflushed bytes).
+    pub unflushed_while_idle: Option<(usize, Vec<u8>)>,
+    pub flushes: u32,
 }
 
 const SETTLE_BOUND: usize = 20_000;
@@ -574,7 +620,9 @@ pub fn run_schedule(
     schedule: &Schedule,
 ) -> RunOutcome {
     crate::core::take_last_panic();
-    let sock = ScriptedSocket::new(schedule.credit);
+    let sock = if schedule.buffering() { ScriptedSocket::new_buffering(schedule.credit) } else { ScriptedSocket::new(schedule.credit) };
+    let mut owed = 0usize;
+    let mut unflushed: Option<(usize, Vec<u8>)> = None;
     let (positions, bound_hit) = rt.block_on(async {
         let mut sender = Some(NotifySender::new());
         let listener = futures_util::stream::iter(vec![Ok::<ServerEnd, io::Error>(ServerEnd(sock.clone()))]);
@@ -583,10 +631,25 @@ pub fn run_schedule(
         let mut positions = Vec::new();
         let mut bound_hit = false;
         let mut offset = 0usize;
+        // looks at the socket at a quiescent point
+        let mut idle_check = |sock: &ScriptedSocket| {
+            let s = sock.snapshot();
+            if unflushed.is_none() && !s.dropped && s.parked_read_empty && s.pending_input == 0 && !s.parked_write {
+                let p = sock.unflushed();
+                if !p.is_empty() {
+                    unflushed = Some((s.out_len, p));
+                }
+            }
+        };
+        let mut settled = false;
         if schedule.settle_first {
             bound_hit |= !settle(&sock).await;
+            idle_check(&sock);
+            settled = true;
         }
         for step in &schedule.steps {
+            let was_settled = settled;
+            settled = false;
             match *step {
                 Step::Deliver(n) => {
                     let end = (offset + n).min(stream.len());
@@ -595,12 +658,21 @@ pub fn run_schedule(
                 }
                 Step::Notify => {
                     if let Some(sender) = sender.as_mut() {
-                        positions.push(locate(&sock, labels));
+                        let pos = locate(&sock, labels);
+                        if was_settled && !pos.same_tick && matches!(pos.place, Place::Idle | Place::Header(_)) {
+                            owed += 1;
+                        }
+                        positions.push(pos);
                         sender.notify();
                     }
                 }
                 Step::DropSender => sender = None,
-                Step::Settle => bound_hit |= !settle(&sock).await,
+                Step::Buffering => settled = was_settled,
+                Step::Settle => {
+                    bound_hit |= !settle(&sock).await;
+                    idle_check(&sock);
+                    settled = !bound_hit;
+                }
                 Step::Grant(n) => sock.grant(Some(n)),
                 Step::Unlimit => sock.grant(None),
             }
@@ -609,6 +681,7 @@ pub fn run_schedule(
         bound_hit |= !settle(&sock).await;
         sock.grant(None);
         bound_hit |= !settle(&sock).await;
+        idle_check(&sock);
         sock.close();
         bound_hit |= !settle(&sock).await;
         // the listener stream ended after one socket, so `run` is long done
@@ -626,6 +699,9 @@ pub fn run_schedule(
         updates: sock.updates(),
         eof_reads: sock.eof_reads(),
         panic: crate::core::take_last_panic(),
+        notifies_owed: owed,
+        unflushed_while_idle: unflushed,
+        flushes: sock.flushes(),
     }
 }
 
